@@ -319,8 +319,9 @@ def run_property(ctx, parts, level, assumptions, level_rule, replay=None):
               "violations": len(seen_keys)}
         if len(nontrivial_keys) < 2 and rc == 0:
             raise MachineryError("vacuity: fewer than 2 distinct non-trivial cases for %s" % ctx.pid)
-        os.makedirs(os.path.join(VERIF, "evidence"), exist_ok=True)
-        with open(os.path.join(VERIF, "evidence", ctx.pid + ".json"), "w") as f:
+        evdir = os.environ.get("VERIF_EVIDENCE_DIR") or os.path.join(VERIF, "evidence")   # selftest writes elsewhere
+        os.makedirs(evdir, exist_ok=True)
+        with open(os.path.join(evdir, ctx.pid + ".json"), "w") as f:
             json.dump(ev, f, indent=1)
     ctx.say("%s %s: %d states, %d cases, %d traces / %d events validated, %d skipped, %d violation(s), %d known, %.1fs"
             % (ctx.pid, ctx.tier, states, n_cases, n_traces, n_events, n_skipped, len(seen_keys),
